@@ -2124,8 +2124,19 @@ func (f *fragment) bulkImportMutex(rowIDs, columnIDs []uint64) error {
 	// that we know how many bits we need to clear and how far through columnIDs
 	// we are.
 	clearIdx := 0
+
+	// When a column is repeated within the import the last entry wins, so
+	// only the last entry of each column is applied.
+	lastIdx := make(map[uint64]int, len(columnIDs))
+	for i, columnID := range columnIDs {
+		lastIdx[columnID] = i
+	}
+
 	for i := range rowIDs {
 		rowID, columnID := rowIDs[i], columnIDs[i]
+		if lastIdx[columnID] != i {
+			continue
+		}
 		if existingRowID, found, err := f.mutexVector.Get(columnID); err != nil {
 			return errors.Wrap(err, "getting mutex vector data")
 		} else if found && existingRowID != rowID {
